@@ -19,6 +19,9 @@
 (* One state per universe member (`case` = its index in U); all ordered      *)
 (* pairs <<case, j>> are evaluated in the invariants of that state.          *)
 (* Shard / NShards split the cases over several TLC processes.               *)
+(*                                                                         *)
+(* A second instance in this module (CallSpec, at the end) does the same for *)
+(* the universe of CALLS of a memoized function (HashKey section 4).         *)
 (***************************************************************************)
 EXTENDS HashKey, Json, SequencesExt
 CONSTANTS Depth, Shard, NShards
@@ -189,4 +192,67 @@ InvLawsAsOperators  == (case % LawStride # 0) \/ \A j \in 1..N : KeySound(U[case
 Emit == /\ PrintT(<<"VAL", ToJson(out)>>)
         /\ \A j \in out.mkc \ (out.eq \cup out.dc) : PrintT(<<"CODED_COLLISION", case, j>>)
         /\ (out.mprob = {} => \A j \in out.eq \ (out.dc \cup out.mkc) : PC[j] # {} \/ PrintT(<<"CODED_SPLIT", case, j>>))
+
+---------------------------------------------------------------------------
+(* SECOND INSTANCE: calls of a memoized function (HashKey section 4), specification CallSpec.          *)
+(*                                                                                                    *)
+(* The universe of calls f(*args, **kw), for both signatures.  Keyword names "q", "r" (parameters of   *)
+(* the fixed signature).  The argument pool CX holds, next to two ints and a list, the LOOK-ALIKES OF   *)
+(* THE PARTS OF A CALL: tuples that could be an `args`, dicts with string keys that could be a          *)
+(* `kwargs`, a (name, value) tuple that could be one keyword item.  The universe is closed under         *)
+(* "packing": for every tuple t in CT and dict d in CD both the call f(*t, **d) and the positional-only  *)
+(* call f(t, d) are members, likewise f(x, q=y) / f(x, y) / f(x, r=y) / f(x, ("q", y)) and f(*t) / f(t). *)
+(* Quick tier (Depth 1): positional sequences of length 2 are ints x ints, tuple x dict, dict x tuple    *)
+(* and 1 x anything; thorough (Depth >= 2): every sequence of length <= 2 over CX.                       *)
+Nq == Str("q")     Nr == Str("r")
+L1 == List(<<I1>>)
+KwBodies == {<<>>, <<Pair(Nq, I1)>>, <<Pair(Nq, I2)>>, <<Pair(Nr, I1)>>, <<Pair(Nq, L1)>>,
+             <<Pair(Nq, I1), Pair(Nr, I2)>>, <<Pair(Nr, I2), Pair(Nq, I1)>>}      \* the last two: one call, written in two orders
+CT == {Tuple(<<>>), Tuple(<<I1>>), T12, Tuple(<<Nq, I1>>)}                         \* could be an `args` / a keyword item
+CD == {Dict(<<>>), Dict(<<Pair(Nq, I1)>>), Dict(<<Pair(Nq, L1)>>), Dict(<<Pair(Nq, I1), Pair(Nr, I2)>>)}   \* could be a `kwargs`
+CX == {I1, I2, L1} \cup CT \cup CD
+CallArgSeqs == IF Depth >= 2 THEN UpTo2(CX)
+               ELSE Len0 \cup Len1(CX) \cup Len2({I1, I2})
+                    \cup {<<t, d>> : t \in CT, d \in CD} \cup {<<d, t>> : t \in CT, d \in CD}
+                    \cup {<<I1, x>> : x \in CX}
+CallUniverse == {c \in {Call(sig, q, k) : sig \in {"var", "fixed"}, q \in CallArgSeqs, k \in KwBodies} : Binds(c)}
+
+CU == SetToSeq(CallUniverse)
+CN == Len(CU)
+CK  == [i \in 1..CN |-> MemoKey(CU[i], WrapperAsCoded, Repaired)]      \* the wrapper as coded over the repaired to_hashable
+CKB == [i \in 1..CN |-> MemoKey(CU[i], {"bareargs"}, Repaired)]        \* the two variants (teeth)
+CKV == [i \in 1..CN |-> MemoKey(CU[i], {"kwvalues"}, Repaired)]
+SameFn(i, j) == CU[i].s = CU[j].s                                      \* calls of one function share one cache
+
+CallExpect(i) ==
+    LET same == {j \in 1..CN : SameArguments(CU[i], CU[j])}             \* expected pattern (the oracle)
+        dc   == {j \in 1..CN : CallDontCare(CU[i], CU[j])}
+    IN [i     |-> i,
+        v     |-> CU[i],
+        bound |-> Tuple(Bound(CU[i])),                                 \* what the function must receive
+        eq    |-> {j \in 1..CN : Eq(CU[i], CU[j])},                    \* the same call (possibly written in another order)
+        same  |-> same,
+        dc    |-> dc,
+        mk    |-> {j \in 1..CN : SameFn(i, j) /\ CK[j] = CK[i]},       \* key classes of the wrapper as coded
+        bare  |-> {j \in 1..CN : SameFn(i, j) /\ CKB[j] = CKB[i]} \ (same \cup dc),     \* where the variants break MemoSound
+        kwvalues |-> {j \in 1..CN : SameFn(i, j) /\ CKV[j] = CKV[i]} \ (same \cup dc)]
+CallInit == /\ case \in {i \in 1..CN : i % NShards = Shard}
+            /\ out = CallExpect(case)
+CallSpec == CallInit /\ [][Next]_<<case, out>>
+
+(* sanity of the universe and of the oracle *)
+InvCallWellFormed == CallWellFormed(CU[case])
+InvCallOracle == /\ case \in out.eq /\ out.eq \subseteq out.same /\ case \notin out.dc
+                 /\ \A j \in out.same \cup out.dc : SameFn(case, j)
+                 /\ \A j \in 1..CN : /\ (j \in out.same) = SameArguments(CU[j], CU[case])
+                                     /\ (j \in out.dc) = CallDontCare(CU[j], CU[case])
+                 /\ \A j \in out.same : {k \in 1..CN : SameArguments(CU[j], CU[k])} = out.same
+(* the laws for the wrapper as coded (over the repaired to_hashable): total, sound, complete *)
+InvCallTotal    == MemoTotal(CU[case], Repaired)
+InvCallSound    == \A j \in 1..CN : SameFn(case, j) /\ CK[j] = CK[case] => j \in out.same \cup out.dc
+InvCallComplete == \A j \in out.eq \ out.dc : CK[j] = CK[case]
+InvCallLawsAsOperators ==
+    (case % LawStride # 0) \/ \A j \in 1..CN : /\ MemoSound(CU[case], CU[j], WrapperAsCoded, Repaired)
+                                                /\ MemoComplete(CU[case], CU[j], WrapperAsCoded, Repaired)
+CallEmit == PrintT(<<"CALLV", ToJson(out)>>)
 =============================================================================
